@@ -41,8 +41,8 @@ def bases(rng, tier):
 def run(res, tier, only_case=None):
     rng = vlib.Rng(vlib.seed())
     res.rule = ("valid files of every hash type / flag set / with and without dictionary; quick: every header position x (8 single-bit flips + 24 random "
-                "values), thorough: every position x all 255 substitutes; insertion and deletion at every position with and without adjusting the "
-                "header-size field and re-parsing; non-trivial = distinct mutant differing from the base inside the header region")
+                "values), thorough: every position x all 255 substitutes; insertion and deletion at every position; every compressed integer of the header re-encoded in a longer, "
+                "non-minimal form (alone and with the enclosing size fields adjusted), plain and with the pristine digest pinned; non-trivial = distinct mutant differing from the base inside the header region")
     model = vlib.ensure_model("C13")
     impl = vlib.ensure_harness("zh_c13", "plain")
     impl_asan = vlib.ensure_harness("zh_c13", "asan")
@@ -51,25 +51,31 @@ def run(res, tier, only_case=None):
     lines, meta = [], []
     if only_case is not None:
         lines = only_case["case"]["lines"]
-        meta = [("base", 0, 0)] + [("replay", 0, 0)] * (len(lines) - 1)
+        meta = [("base", 0, 0) if x.startswith("B ") else ("pins", 0, 0) if x.startswith("P ") else ("replay", 0, 0) for x in lines]
     else:
         for f in files:
             l = zckfmt.parse_lead(f)
             hdr_end = l["lead"] + l["hlen"]
-            for pinned in (False, True):
+            for pinned in (False, True, "late"):
               lines.append("B " + vlib.hexs(f)); meta.append(("base", 0, 0))
-              if pinned:
+              if pinned == "late":
+                  # type and digest of the pristine file set AFTER zck_read_lead: nothing compares them any more, the
+                  # stored checksum alone has to catch every change (swept over the lead only)
+                  lines.append("P L%d %s -" % (l["ht"], f[l["dloc"]:l["lead"]].hex())); meta.append(("pins", 0, 0))
+              elif pinned:
                   # the same sweep through the pinned-digest path (type and digest of the pristine file)
                   lines.append("P %d %s -" % (l["ht"], f[l["dloc"]:l["lead"]].hex())); meta.append(("pins", 0, 0))
               lines.append("m 0 %d" % f[0]); meta.append(("identity", 0, f[0]))
               for pos in range(hdr_end):
+                if pinned == "late" and (pos >= l["lead"] + 4 or (tier == "quick" and not (l["dloc"] <= pos < l["lead"]) and pos % 2)):
+                    continue
                 if pinned and tier == "quick" and pos % 3 != 1 and not (l["dloc"] <= pos < l["lead"]):
                     continue
                 if tier == "thorough":
                     vals = [v for v in range(256) if v != f[pos]]
                 else:
                     vals = {f[pos] ^ (1 << b) for b in range(8)}
-                    while len(vals) < (32 if not pinned else 12):
+                    while len(vals) < (32 if not pinned else 12 if pinned is True else 9):
                         v = rng.randrange(256)
                         if v != f[pos]:
                             vals.add(v)
@@ -78,8 +84,28 @@ def run(res, tier, only_case=None):
                     lines.append("m %d %d" % (pos, v)); meta.append(("subst", pos, v))
                 lines.append("x %d" % pos); meta.append(("delete", pos, 0))
                 lines.append("i %d %d" % (pos, rng.randrange(256))); meta.append(("insert", pos, 0))
-            # insert/delete with the header-size field adjusted (only when it stays a 1-byte-safe edit)
-            hl = l["hlen"]
+            # every compressed integer of the header written in a longer, non-minimal form (last byte without its end
+            # bit + 0x80: the decoder accepts the trailing zero digit) - same parsed values, different bytes - alone and
+            # with the enclosing size fields adjusted so that the structure stays consistent; plain and pinned
+            flds = zckfmt.ci_fields(f)
+            for (name, off, ln, val) in (flds or []):
+                g0 = f[:off + ln - 1] + bytes([f[off + ln - 1] & 0x7f, 0x80]) + f[off + ln:]
+                variants = [("reencode:" + name, g0)]
+                if off >= l["lead"]:
+                    g = bytearray(g0)
+                    adj = [x for x in flds if x[0] == "header_size" or (x[0] == "index_size" and off > x[1])]
+                    ok = True
+                    for (an, aoff, aln, aval) in sorted(adj, key=lambda x: -x[1]):
+                        enc = zckfmt.ci(aval + 1)
+                        if len(enc) != aln:
+                            ok = False
+                            break
+                        g[aoff:aoff + aln] = enc
+                    if ok:
+                        variants.append(("reencode+sizes:" + name, bytes(g)))
+                for tg, g in variants:
+                    lines.append("O - - - " + vlib.hexs(g)); meta.append((tg, off, 0))
+                    lines.append("O %d %s - %s" % (l["ht"], f[l["dloc"]:l["lead"]].hex(), vlib.hexs(g))); meta.append((tg + ":pinned", off, 0))
     mo, _ = vlib.run_cases(model, lines, wd, "model", timeout=1800)
     io, _ = vlib.run_cases(impl, lines, wd, "impl", env={"ZH_TMP": wd, "ZH_AS_LIMIT_MB": "2048"}, timeout=1800)
     base, pins_line = None, None
@@ -90,8 +116,11 @@ def run(res, tier, only_case=None):
         if kind == "pins":
             pins_line = line; continue
         res.evaluations += 1
-        case = {"lines": ["B " + vlib.hexs(base)] + ([pins_line] if pins_line else []) + [line], "impl": i, "model": mres}
-        key = "c06:%s:%s%s" % (vlib.hashlib.sha256(base).hexdigest()[:10], line.replace(" ", "_"), ":pinned" if pins_line else "")
+        case = {"lines": (["B " + vlib.hexs(base)] + ([pins_line] if pins_line else []) if not line.startswith("O ") else []) + [line], "impl": i, "model": mres}
+        if line.startswith("O "):
+            key = "c06:%s:%s@%d:%s" % (vlib.hashlib.sha256(base or b"").hexdigest()[:10], kind, pos, vlib.hashlib.sha256(line.encode()).hexdigest()[:10])
+        else:
+            key = "c06:%s:%s%s" % (vlib.hashlib.sha256(base).hexdigest()[:10], line.replace(" ", "_"), ":pinned" if pins_line else "")
         if kind == "identity":
             if not i.startswith("OK"):
                 res.violation("harness", "c06:base-invalid", "base file does not open: %s" % i, case)
@@ -101,7 +130,7 @@ def run(res, tier, only_case=None):
         if i.startswith("OK"):
             magic_switch = kind == "subst" and pos < 5 and (base[:pos] + bytes([v]) + base[pos + 1:5]) in (b"\0ZCK1", b"\0ZHR1")
             if not magic_switch:
-                res.violation("oracle", key, "header mutant (%s at %d -> %d) of a valid file still opens" % (kind, pos, v), case)
+                res.violation("oracle", key, "header mutant (%s at %d -> %d) of a valid file still opens%s" % (kind, pos, v, " although its header bytes differ from the pinned/stored digest's" if line.startswith("O ") else ""), case)
                 continue
         if i != mres:
             res.violation("correspondence", key.replace("c06:", "c06-corr:"), "model and library disagree on mutant %s: model %s code %s" % (line, mres[:100], i[:100]), case)
